@@ -117,6 +117,15 @@ def run_case(case):
                     {'what': what, 'got': sorted(map(repr, got))[:10], 'expected': sorted(map(repr, exp))[:10],
                      'features': {c: sorted(map(repr, v))[:60] for c, v in feats.items()}, 'history': hist, **extra})
 
+    # (the second container is complete before the first one starts its history: its own bookkeeping - clearing memos when it changes - must not
+    # stand between the first container's additions and the queries that follow)
+    for _ in range(r.randint(3, 20)):
+        c = r.choice(contigs)
+        s_ = r.randint(0, U) + big
+        tup = (s_, s_ + r.choice([0, 1, 5, r.randint(0, U)]), f't{next(uid)}', r.choice(['+', '-', None]), f'tid{next(uid)}')
+        twin.addFeature(c, tup[0], tup[1], tup[2], strand=tup[3], data=tup[4])
+        twin_feats.setdefault(c, set()).add(tup)
+    twin.sort()
     for rd in range(rounds):
         k = r.choice([1, 2, 3, 5, 10, 30, 80, 200]) if rd == 0 else r.choice([1, 1, 2, 5, 20])
         # a round may add features to ONE contig only - possibly a contig that had none so far although it was already queried (every round
@@ -154,14 +163,6 @@ def run_case(case):
                 tup = (s, e, f'f{next(uid)}', r.choice(['+', '-', '+', '-', None]), f'id{next(uid)}')
             fc.addFeature(c, tup[0], tup[1], tup[2], strand=tup[3], data=tup[4])
             feats.setdefault(c, set()).add(tup)
-        for _ in range(r.randint(0, 6)):
-            c = r.choice(contigs)
-            s_ = r.randint(0, U) + big
-            tup = (s_, s_ + r.choice([0, 1, 5, r.randint(0, U)]), f't{next(uid)}', r.choice(['+', '-', None]), f'tid{next(uid)}')
-            twin.addFeature(c, tup[0], tup[1], tup[2], strand=tup[3], data=tup[4])
-            twin_feats.setdefault(c, set()).add(tup)
-        if r.random() < 0.7:
-            twin.sort()
         # the container (re)builds its index on demand: an explicit sort() after adding is optional
         if r.random() < (0.3 if only is None else 0.7):
             hist.append(f'add{k}{"@" + only if only else ""};(no explicit sort)')
